@@ -64,6 +64,9 @@ pub struct GenParams {
     pub chase_in_reply: bool,
     /// servers list AAAA before A in the additional section
     pub v6_glue_first: bool,
+    /// protocol mode of the resolver under test in the checks that do not enumerate
+    /// the modes themselves (C07): 0 only-v4, 1 prefer-v4, 2 prefer-v6, 3 only-v6
+    pub resolver_mode: u8,
     /// address family of the servers of each level (index 0 = root, then levels, last = sibling)
     pub families: Vec<Family>,
 }
@@ -77,13 +80,15 @@ impl GenParams {
             send_additional: true,
             chase_in_reply: false,
             v6_glue_first: false,
+            resolver_mode: 0,
             families: vec![Family::V4; depth + 2],
         }
     }
     pub fn describe(&self) -> String {
         format!(
-            "depth={} styles={:?} ns={:?} additional={} chase={} v6first={} families={:?}",
-            self.depth, self.styles, self.ns_count, self.send_additional, self.chase_in_reply, self.v6_glue_first, self.families
+            "depth={} styles={:?} ns={:?} additional={} chase={} v6first={} families={:?}{}",
+            self.depth, self.styles, self.ns_count, self.send_additional, self.chase_in_reply, self.v6_glue_first, self.families,
+            ["", " resolver=prefer-v4", " resolver=prefer-v6", " resolver=only-v6"][(self.resolver_mode as usize).min(3)]
         )
     }
 }
